@@ -163,12 +163,102 @@ type xmlCmp struct {
 	diff    string
 }
 
+// depSig is the identity of a <dependency> subtree (ts[0] is its start token).
+func depSig(ts []xtok) string {
+	d := addedDeps(ts)
+	if len(d) != 1 {
+		return "?"
+	}
+	return d[0].K
+}
+
+// childSubtrees lists the [start,end) token ranges of the elements named name that are children of the
+// element path ctx ("project", "project/dependencyManagement/dependencies").
+func childSubtrees(ts []xtok, ctx, name string) [][2]int {
+	var out [][2]int
+	var stack []string
+	for i := 0; i < len(ts); i++ {
+		switch ts[i].kind {
+		case tStart:
+			if ts[i].name == name && strings.Join(stack, "/") == ctx {
+				e := subtree(ts, i)
+				out = append(out, [2]int{i, e})
+				i = e - 1
+				continue
+			}
+			stack = append(stack, ts[i].name)
+		case tEnd:
+			if len(stack) > 0 {
+				stack = stack[:len(stack)-1]
+			}
+		}
+	}
+	return out
+}
+
+// stripInsertion removes from out the elements the writer inserted (a dependencyManagement child of
+// project when the input has none, dependency children of project/dependencyManagement/dependencies
+// that the input does not have), together with the whitespace next to them. It returns the remaining
+// tokens, the inserted dependencies and the positions where whitespace was cut.
+func stripInsertion(in, out []xtok) ([]xtok, []kv, map[int]bool) {
+	var cut [][2]int
+	var added []kv
+	const dmCtx = "project/dependencyManagement/dependencies"
+	if len(childSubtrees(in, "project", "dependencyManagement")) == 0 {
+		for _, r := range childSubtrees(out, "project", "dependencyManagement") {
+			cut = append(cut, r)
+			added = append(added, addedDeps(out[r[0]:r[1]])...)
+		}
+	} else {
+		have := map[string]int{}
+		for _, r := range childSubtrees(in, dmCtx, "dependency") {
+			have[depSig(in[r[0]:r[1]])]++
+		}
+		outs := childSubtrees(out, dmCtx, "dependency")
+		total := map[string]int{}
+		for _, r := range outs {
+			total[depSig(out[r[0]:r[1]])]++
+		}
+		for _, r := range outs {
+			sig := depSig(out[r[0]:r[1]])
+			if total[sig] > have[sig] {
+				total[sig]--
+				cut = append(cut, r)
+				added = append(added, addedDeps(out[r[0]:r[1]])...)
+			}
+		}
+	}
+	soft := map[int]bool{}
+	if len(cut) == 0 {
+		return out, nil, soft
+	}
+	var res []xtok
+	pos := 0
+	for _, r := range cut {
+		a, b := r[0], r[1]
+		for a > pos && isWS(out[a-1]) {
+			a--
+		}
+		for b < len(out) && isWS(out[b]) {
+			b++
+		}
+		res = append(res, out[pos:a]...)
+		soft[len(res)] = true
+		pos = b
+	}
+	res = append(res, out[pos:]...)
+	return res, added, soft
+}
+
 // compareXML walks both token streams in lockstep. flags maps the path of a recorded value element
-// (child-element ordinals from the root, e.g. "0/4/1/2") to its id. If allowAdd, one inserted
-// dependencyManagement element (child of project) or dependency elements (children of
-// project/dependencyManagement/dependencies) are accepted in the output and reported.
+// (child-element ordinals from the root, e.g. "r/4/1/2") to its id. If allowAdd, inserted
+// dependencyManagement / dependency elements are taken out of the output first and reported.
 func compareXML(in, out []xtok, flags map[string]string, allowAdd bool) xmlCmp {
 	res := xmlCmp{changed: map[string]string{}}
+	soft := map[int]bool{}
+	if allowAdd {
+		out, res.added, soft = stripInsertion(in, out)
+	}
 	type frame struct {
 		name, path string
 		next       int // ordinal of the next child element
@@ -200,8 +290,13 @@ func compareXML(in, out []xtok, flags map[string]string, allowAdd bool) xmlCmp {
 		return res
 	}
 	i, j := 0, 0
-	justAdded := false
 	for i < len(in) || j < len(out) {
+		if soft[j] && i < len(in) && isWS(in[i]) && (j >= len(out) || !in[i].equal(out[j])) {
+			// whitespace that stood where the insertion was made
+			i++
+			delete(soft, j)
+			continue
+		}
 		if i < len(in) && j < len(out) && in[i].kind == tStart {
 			p := pathOf()
 			if id, ok := flags[p]; ok {
@@ -231,7 +326,6 @@ func compareXML(in, out []xtok, flags map[string]string, allowAdd bool) xmlCmp {
 					stack[len(stack)-1].next++
 				}
 				i, j = ie, je
-				justAdded = false
 				continue
 			}
 		}
@@ -248,44 +342,6 @@ func compareXML(in, out []xtok, flags map[string]string, allowAdd bool) xmlCmp {
 					stack = stack[:len(stack)-1]
 				}
 			}
-			i++
-			j++
-			justAdded = false
-			continue
-		}
-		// mismatch: an allowed insertion?
-		if allowAdd && j < len(out) {
-			jj := j
-			if isWS(out[jj]) && jj+1 < len(out) {
-				jj++
-			}
-			c := ctx()
-			if out[jj].kind == tStart && ((out[jj].name == "dependencyManagement" && c == "project") ||
-				(out[jj].name == "dependency" && c == "project/dependencyManagement/dependencies")) {
-				je := subtree(out, jj)
-				res.added = append(res.added, addedDeps(out[jj:je])...)
-				j = je
-				justAdded = true
-				continue
-			}
-		}
-		if justAdded {
-			// whitespace around an inserted element belongs to the insertion
-			if i < len(in) && j < len(out) && isWS(in[i]) && isWS(out[j]) {
-				i++
-				j++
-				justAdded = false
-				continue
-			}
-			if j < len(out) && isWS(out[j]) {
-				j++
-				justAdded = false
-				continue
-			}
-		}
-		if allowAdd && i < len(in) && j < len(out) && isWS(in[i]) && isWS(out[j]) && j+1 < len(out) && out[j+1].kind == tStart &&
-			(out[j+1].name == "dependencyManagement" || out[j+1].name == "dependency") {
-			// differing whitespace right before an insertion: let the insertion branch see it
 			i++
 			j++
 			continue
